@@ -28,16 +28,16 @@ type ecase struct {
 }
 
 type observation struct {
-	Rcode     string
-	Addrs     []string // selected addresses (answer section, or additional section for the slot's target)
-	Kinds     []string // violated clauses
-	Want      int
-	Visible   int
-	Positive  int
-	Taken     int
-	Canon     string
-	msg       *dns.Msg
-	NonTriv   bool
+	Rcode    string
+	Addrs    []string // selected addresses (answer section, or additional section for the slot's target)
+	Kinds    []string // violated clauses
+	Want     int
+	Visible  int
+	Positive int
+	Taken    int
+	Canon    string
+	msg      *dns.Msg
+	NonTriv  bool
 }
 
 // query builds a plain query message (dns.Msg.SetQuestion would take a fresh
@@ -67,16 +67,16 @@ func backendOf(name string) dnsfix.Backend {
 // then "misaligned": draws can no longer be attributed to candidates, every
 // sequence over the draws actually taken is still enumerated and judged.
 func (w *world) keyDraws(s slot, cl string) (int, bool) {
-	k := s.String() + "|" + cl
+	k := cfgKey{s, cl}
 	if v, ok := w.nk[k]; ok {
 		return v, v == len(w.drawRows(s, cl))
 	}
 	src.load(nil)
-	qn, qt := s.query()
+	qn, qt := s.query(w.zone)
 	w.h.Serve(query(qn, qt), clientIP[cl], false, 1)
 	v := src.taken()
 	if w.nk == nil {
-		w.nk = map[string]int{}
+		w.nk = map[cfgKey]int{}
 	}
 	w.nk[k] = v
 	aligned := v == len(w.drawRows(s, cl))
@@ -97,7 +97,7 @@ func serve(w *world, s slot, cl string, m int, keys, shuffle []uint32) observati
 	script = append(script, keys...)
 	script = append(script, shuffle...)
 	src.load(script)
-	qn, qt := s.query()
+	qn, qt := s.query(w.zone)
 	mm := m
 	if s.Sect != "answer" {
 		mm = 3 // the additional section is limited to one per family whatever the context says
@@ -105,17 +105,11 @@ func serve(w *world, s slot, cl string, m int, keys, shuffle []uint32) observati
 	res := w.h.Serve(query(qn, qt), clientIP[cl], false, mm)
 	o := observation{Taken: src.taken()}
 	if aligned {
-		// the draws the code took must be the ones the script was written for
-		items := nk
-		if s.Sect != "answer" {
-			items = 1
-		} else if m < items {
-			items = m
-		}
-		maxShuffle := 0
-		if items > 1 {
-			maxShuffle = 2 * (items - 1) // each shuffle step takes one draw, or two when the first is rejected by int31n
-		}
+		// the draws the code took must be the ones the script was written for: one key draw per row,
+		// then the shuffle of the kept items (at most one per row, each step taking one draw, or two
+		// when int31n rejects the first). How many items are kept is the code's business (and judged
+		// through the answer), so the bound does not depend on maxAnswer.
+		maxShuffle := 2 * nk
 		if (o.Taken < len(keys) || o.Taken > len(keys)+maxShuffle) && w.backend != dnsfix.CDB {
 			// RocksDB stores: the serve path may select twice for one name (an NS RRset that is duplicated in the
 			// authority section makes the glue selection run again when the first run served nothing): judged as is
@@ -144,7 +138,7 @@ func judge(w *world, s slot, cl string, m int, res dnsfix.Result, o *observation
 		limit = 1
 		section = msg.Extra
 	}
-	owner := s.owner()
+	owner := s.owner(w.zone)
 	var bad [6]bool // foreign, repeat, weight0-served, short, long
 	// declared, visible candidates per family: address -> weight
 	vi := w.visible(s, cl)
@@ -406,7 +400,7 @@ func (c ecase) project(f int) ecase {
 
 type e2eStats struct {
 	evals, nontrivial, worlds, failing, shuffleEvals, configs, misaligned int64
-	bySize                                                   [6]int64
+	bySize                                                                [6]int64
 }
 
 type e2ePlan struct {
@@ -430,6 +424,9 @@ func pow5(n int) int64 {
 
 func emit(r *vlib.Run, mc ecase, kind string, larger string) {
 	fp := fmt.Sprintf("e2e/%s/%s/%s/%s", kind, sectName(slot{mc.Sect, mc.Fam}), mc.Backend, mc.candText())
+	if mc.Shuffle != nil {
+		fp += fmt.Sprintf("/shuffle-draws=%v", mc.Shuffle)
+	}
 	if r.Has(fp) {
 		return
 	}
@@ -439,123 +436,257 @@ func emit(r *vlib.Run, mc ecase, kind string, larger string) {
 		map[string]interface{}{"part": "e2e", "kind": kind, "case": mc})
 }
 
-var kindIndex = map[string]uint64{"foreign": 1, "repeat": 2, "weight0-served": 3, "count/short": 4, "count/long": 5}
+var kindIndex = map[string]uint64{"foreign": 1, "repeat": 2, "weight0-served": 3, "count/short": 4, "count/long": 5, "noresponse": 6}
 var sectIndex = map[string]uint64{"answer": 0, "mx": 1, "ns": 2}
-var drawIndex = map[uint32]uint64{0: 1, 1: 2, 1 << 31: 3, 1<<32 - 2: 4, 1<<32 - 1: 5}
-var symIndex = func() map[sym]uint64 {
-	m := map[sym]uint64{}
+var drawIndex = map[uint32]uint8{0: 1, 1: 2, 1 << 31: 3, 1<<32 - 2: 4, 1<<32 - 1: 5}
+var symIndex = func() map[sym]uint8 {
+	m := map[sym]uint8{}
 	for i, a := range alphabet {
-		m[a] = uint64(i)
+		m[a] = uint8(i)
 	}
 	return m
 }()
 
-// single-candidate sub-cases: 1 = fails, 2 = passes; and whether already reported
-var singleMemo = map[uint64]uint8{}
-var singleReported = map[uint64]bool{}
+// draws from the most ordinary to the most extreme (index into drawAlphabet, 1-based)
+var drawSimplicity = []uint8{3, 2, 4, 1, 5}
 
-// fastReport handles the common situation in which ONE candidate with its own
-// draw already violates the clause on its own (sub-case of size 1): integer-keyed
-// memo instead of building the canonical text of every failing evaluation.
-func fastReport(r *vlib.Run, w *world, s slot, cl string, m int, keys []uint32, kind string) bool {
-	ki, ok := kindIndex[kind]
-	if !ok {
-		return false
+// ccase is the compact form of a semantic case over the part-1 alphabets
+// (candidate = alphabet symbol + index of the draw of its v4 / v6 row, 0 = no
+// visible row): sub-cases are memoised by a 64-bit key instead of text.
+type ccand struct{ sym, d4, d6 uint8 }
+
+type ccase struct {
+	backend dnsfix.Backend
+	sect    string
+	fam     int
+	cl      string
+	m       int
+	cands   []ccand
+}
+
+func (c ccase) pack(kind string) uint64 {
+	codes := make([]int, len(c.cands))
+	for i, x := range c.cands {
+		codes[i] = int(x.sym)<<6 | int(x.d4)<<3 | int(x.d6)
 	}
-	rows := w.drawRows(s, cl)
-	var di [8][2]uint64
-	if len(w.set) > len(di) {
-		return false
+	sort.Ints(codes)
+	clb := uint64(0)
+	if c.cl != "" {
+		clb = 1
 	}
-	for j, rw := range rows {
+	k := uint64(c.backend)<<62 | sectIndex[c.sect]<<60 | uint64(c.fam&3)<<58 | uint64(c.fam>>2)<<57 | clb<<56 | uint64(c.m)<<52 | kindIndex[kind]<<49 | uint64(len(codes))<<46
+	for i, x := range codes {
+		k |= uint64(x) << (9 * uint(i))
+	}
+	return k
+}
+
+func (c ccase) toE() ecase {
+	e := ecase{Backend: c.backend.String(), Sect: c.sect, Fam: c.fam, Client: c.cl, M: c.m}
+	txt := func(d uint8) string {
+		if d == 0 {
+			return "-"
+		}
+		return fmt.Sprint(drawAlphabet[d-1])
+	}
+	for _, x := range c.cands {
+		e.Set = append(e.Set, alphabet[x.sym])
+		switch c.fam {
+		case 4:
+			e.Draws = append(e.Draws, []string{txt(x.d4)})
+		case 6:
+			e.Draws = append(e.Draws, []string{txt(x.d6)})
+		default:
+			e.Draws = append(e.Draws, []string{txt(x.d4), txt(x.d6)})
+		}
+	}
+	return e
+}
+
+// 1 = fails, 2 = passes
+var cMemo = map[uint64]uint8{}
+
+func (c ccase) fails(kind string) bool {
+	if len(c.cands) > 5 {
+		vlib.Infra("compact case with %d candidates", len(c.cands))
+	}
+	k := c.pack(kind)
+	if v, ok := cMemo[k]; ok {
+		return v == 1
+	}
+	v := uint8(2)
+	if c.toE().run().has(kind) {
+		v = 1
+	}
+	cMemo[k] = v
+	return v == 1
+}
+
+func (c ccase) with(cands []ccand) ccase {
+	d := c
+	d.cands = cands
+	return d
+}
+
+// minimise: smallest sub-multiset of the candidates (and, for a both-family
+// target, one family only) that still violates the clause.
+func (c ccase) minimise(kind string) ccase {
+	if c.fam == 0 {
+		for _, f := range []int{4, 6} {
+			p := c.with(append([]ccand(nil), c.cands...))
+			p.fam = f
+			for i := range p.cands {
+				if f == 4 {
+					p.cands[i].d6 = 0
+				} else {
+					p.cands[i].d4 = 0
+				}
+			}
+			if p.fails(kind) {
+				return p.minimise(kind)
+			}
+		}
+	}
+	n := len(c.cands)
+	for size := 1; size < n; size++ {
+		idx := make([]int, size)
+		var found *ccase
+		var rec func(pos, from int) bool
+		rec = func(pos, from int) bool {
+			if pos == size {
+				sub := make([]ccand, size)
+				for i, j := range idx {
+					sub[i] = c.cands[j]
+				}
+				s := c.with(sub)
+				if s.fails(kind) {
+					found = &s
+					return true
+				}
+				return false
+			}
+			for i := from; i < n; i++ {
+				idx[pos] = i
+				if rec(pos+1, i+1) {
+					return true
+				}
+			}
+			return false
+		}
+		if rec(0, 0) {
+			if c.fam == 0 {
+				return found.minimise(kind)
+			}
+			return *found
+		}
+	}
+	return c
+}
+
+// simplify replaces, one value at a time, a candidate's symbol by a simpler
+// symbol of the alphabet and its draw by a more ordinary draw while the clause
+// stays violated (the simplified case is itself a case of the enumeration).
+func (c ccase) simplify(kind string) ccase {
+	c = c.with(append([]ccand(nil), c.cands...))
+	for changed := true; changed; {
+		changed = false
+		for i := range c.cands {
+			for sy := uint8(0); sy < c.cands[i].sym; sy++ {
+				t := c.with(append([]ccand(nil), c.cands...))
+				t.cands[i].sym = sy
+				if t.fails(kind) {
+					c, changed = t, true
+					break
+				}
+			}
+			for _, which := range []int{4, 6} {
+				cur := c.cands[i].d4
+				if which == 6 {
+					cur = c.cands[i].d6
+				}
+				if cur == 0 {
+					continue
+				}
+				for _, d := range drawSimplicity {
+					if d == cur {
+						break
+					}
+					t := c.with(append([]ccand(nil), c.cands...))
+					if which == 4 {
+						t.cands[i].d4 = d
+					} else {
+						t.cands[i].d6 = d
+					}
+					if t.fails(kind) {
+						c, changed = t, true
+						break
+					}
+				}
+			}
+		}
+	}
+	return c
+}
+
+// compact converts a served case to the compact form (false: not over the part-1 alphabets).
+func compact(w *world, s slot, cl string, m int, keys []uint32) (ccase, bool) {
+	c := ccase{backend: w.backend, sect: s.Sect, fam: s.Fam, cl: cl, m: m, cands: make([]ccand, len(w.set))}
+	if len(w.set) > 5 {
+		return c, false
+	}
+	for i, x := range w.set {
+		si, ok := symIndex[x]
+		if !ok {
+			return c, false
+		}
+		c.cands[i].sym = si
+	}
+	for j, rw := range w.drawRows(s, cl) {
 		if rw.Cand < 0 {
 			continue
 		}
 		d, ok := drawIndex[keys[j]]
 		if !ok {
-			return false
+			return c, false
 		}
-		k := 0
 		if rw.Fam == 6 {
-			k = 1
-		}
-		di[rw.Cand][k] = d
-	}
-	clb := uint64(0)
-	if cl != "" {
-		clb = 1
-	}
-	projs := []int{s.Fam}
-	if s.Fam == 0 {
-		projs = []int{4, 6, 0}
-	}
-	for i, c := range w.set {
-		si, ok := symIndex[c]
-		if !ok {
-			return false
-		}
-		for _, f := range projs {
-			d4, d6 := di[i][0], di[i][1]
-			if f == 4 {
-				d6 = 0
-			}
-			if f == 6 {
-				d4 = 0
-			}
-			if d4 == 0 && d6 == 0 {
-				continue // no visible row of this candidate in this projection
-			}
-			pk := uint64(w.backend)<<40 | sectIndex[s.Sect]<<36 | uint64(f)<<32 | clb<<28 | uint64(m)<<24 | ki<<20 | si<<16 | d4<<8 | d6
-			st := singleMemo[pk]
-			var sc ecase
-			build := func() ecase {
-				e := ecase{Set: []sym{c}, Backend: w.backend.String(), Sect: s.Sect, Fam: f, Client: cl, M: m}
-				txt := func(d uint64) string {
-					if d == 0 {
-						return "-"
-					}
-					return fmt.Sprint(drawAlphabet[d-1])
-				}
-				switch f {
-				case 4:
-					e.Draws = [][]string{{txt(d4)}}
-				case 6:
-					e.Draws = [][]string{{txt(d6)}}
-				default:
-					e.Draws = [][]string{{txt(d4), txt(d6)}}
-				}
-				return e
-			}
-			if st == 0 {
-				sc = build()
-				st = 2
-				if sc.fails(kind) {
-					st = 1
-				}
-				singleMemo[pk] = st
-			}
-			if st == 1 {
-				if !singleReported[pk] {
-					singleReported[pk] = true
-					emit(r, build(), kind, attach(w, s, cl, m, keys, nil).candText())
-				}
-				return true
-			}
+			c.cands[rw.Cand].d6 = d
+		} else {
+			c.cands[rw.Cand].d4 = d
 		}
 	}
-	return false
+	return c, true
 }
 
 func report(r *vlib.Run, w *world, s slot, cl string, m int, keys, shuffle []uint32, o observation) {
 	var c *ecase
-	for _, kind := range o.Kinds {
-		if shuffle == nil && len(w.set) > 1 && fastReport(r, w, s, cl, m, keys, kind) {
-			continue
-		}
+	larger := func() string {
 		if c == nil {
 			x := attach(w, s, cl, m, keys, shuffle)
 			c = &x
 		}
+		return c.candText()
+	}
+	for _, kind := range o.Kinds {
+		// (a case seen while a shuffle draw was varied is first re-judged with the default shuffle
+		// draws: if it fails all the same, the shuffle is not part of the minimal case)
+		if cc, ok := compact(w, s, cl, m, keys); ok && kind != "noresponse" && (shuffle == nil || cc.fails(kind)) {
+			mc := cc
+			for {
+				nx := mc.minimise(kind).simplify(kind)
+				if nx.pack(kind) == mc.pack(kind) {
+					break
+				}
+				mc = nx
+			}
+			pk := mc.pack(kind)
+			if !reported[pk] {
+				reported[pk] = true
+				emit(r, mc.toE(), kind, larger())
+			}
+			continue
+		}
+		larger()
 		mc := *c
 		if kind != "noresponse" {
 			mc = c.minimise(kind)
@@ -563,6 +694,8 @@ func report(r *vlib.Run, w *world, s slot, cl string, m int, keys, shuffle []uin
 		emit(r, mc, kind, c.candText())
 	}
 }
+
+var reported = map[uint64]bool{}
 
 func sectName(s slot) string {
 	if s.Sect == "answer" {
@@ -675,7 +808,7 @@ func runPlan(r *vlib.Run, p e2ePlan, st *e2eStats) {
 						reportMisaligned(r, p, w, s, cl, m, keys, o)
 					}
 				}
-				if !shuffled && (first || (st.evals&(st.evals-1)) == 0) {
+				if !shuffled && (first && st.evals == 1 || st.evals == 5000) {
 					first = false
 					cands := setKey(w.set) + fmt.Sprintf(" draws=%v (not attributable)", keys)
 					if aligned {
@@ -778,7 +911,7 @@ func keyVectors(n int) [][]uint32 {
 	ladder := make([]uint32, n)
 	for i := range mid {
 		mid[i] = 1 << 31
-		ladder[i] = []uint32{1, 1 << 31, 1<<32 - 2, 1 << 30, 3 << 30}[i%5]
+		ladder[i] = []uint32{1<<32 - 2, 1, 1 << 31, 1<<32 - 2, 1}[i%5]
 	}
 	return [][]uint32{mid, ladder}
 }
